@@ -85,6 +85,7 @@ inductive Out where
   | close (c : Nat)                       -- our side of connection c is closed
   | up | down                             -- API neighbor-changes
   | reject (c : Nat)                      -- `handle_connection` refused connection c
+  | gotNotification (c : Nat)             -- ghost marker: the coroutine read a NOTIFICATION on c
 deriving DecidableEq, Repr
 
 inductive Event where
@@ -200,6 +201,10 @@ def sendOn (k : Kind) (s : State) : R × Bool :=
 def onNotify (code sub : Nat) (s : State) : R :=
   (sendOn (.notification code sub) s).1 ⊳ resetP ⊳ stopIfExhausted ⊳ finish
 
+/-- a NOTIFICATION was read on `peer.proto`: `except Notification` of `_run` (no reply). -/
+def onNotification (s : State) : R :=
+  ((s, match s.conn with | some c => [.gotNotification c.id] | none => []) : R) ⊳ onNetErr
+
 /-- `except Interrupted` / `except Exception` of `_run`. -/
 def onOther (s : State) : R := resetP s ⊳ finish
 
@@ -248,7 +253,7 @@ def mainIter (m : Option Msg) (s : State) : R :=
   match m with
   | some (.bad f) => onNotify (raised f).1 (raised f).2 s
   | some .operational => onNotify 1 0 s
-  | some .notification => onNetErr s
+  | some .notification => onNotification s
   | _ =>
     if s.cfg.hold0 ∧ m = some .keepalive ∧ s.kaSeen then onNotify 2 6 s
     else
@@ -283,7 +288,7 @@ def deliver (m : Msg) (s : State) : R :=
     match m with
     | .bad f => onNotify (raised f).1 (raised f).2 s
     | .operational => onNotify 1 0 s
-    | .notification => onNetErr s
+    | .notification => onNotification s
     | .openOk low =>
       fsmTo .openconfirm (markConn (fun (k : Conn) => { k with idLow := low, openRecv := true }) s) ⊳ sendKa c
     | .openSem e => onNotify (semCode e).1 (semCode e).2 s
@@ -292,7 +297,7 @@ def deliver (m : Msg) (s : State) : R :=
     match m with
     | .bad f => onNotify (raised f).1 (raised f).2 s
     | .operational => onNotify 1 0 s
-    | .notification => onNetErr s
+    | .notification => onNotification s
     | .keepalive => fsmTo .established (markConn (fun (k : Conn) => { k with kaRecv := true }) s) ⊳ enterMain c
     | _ => onNotify 5 2 s
   | .mainLoop _ => mainIter (some m) s
